@@ -162,13 +162,13 @@ func c08ExecInner(scAny any, c *simcheck.Ctx) *simcheck.Violation {
 	run := func(what string) (*procResult, *simcheck.Violation) {
 		step++
 		pc := h.pc
-		pc.WatchdogS = 30
+		pc.WatchdogS = 90 // (real time; generous, because the machine may be shared with other jobs)
 		res := h.build(step, &opSpec{Op: "build", Label: "//:all", Reload: reloadNext}, pc, nil)
 		reloadNext = false
 		if res.Sim.Stuck {
 			// a load and build of a handful of targets takes milliseconds; half a minute of
 			// real time with the baton never coming back means a computation that does not end
-			v := simcheck.V("fingerprint-hang", "%s: loading and building did not finish within 30 s of real time (fingerprinting or comparing environments does not terminate)", what)
+			v := simcheck.V("fingerprint-hang", "%s: loading and building did not finish within 90 s of real time (fingerprinting or comparing environments does not terminate)", what)
 			v.Fatal = true
 			return res, v
 		}
